@@ -22,6 +22,7 @@ def check(chk):
     r54(chk, m)
     r55(chk, m)
     r56(chk, m)
+    r57(chk, m)
     chk.decline('the values bound for concrete invocations (value-level)')
     chk.decline('the mandatory first-token loops of readInteger/readDecimal on a missing number, and '
                 'readKeyword dropping an already expanded element after a missing unit (non-conforming calls)')
@@ -448,6 +449,8 @@ def r54(chk, m):
     expect('readOptionalSigns', 'plus sign', [plus()], 'consumed')
     expect('readOptionalSigns', 'minus sign', [minus()], 'consumed')
     expect('readOptionalSigns', 'character after signs', [minus(), other()], 'pushed')
+    expect('readOptionalSigns', 'space between signs', [minus(), space(), minus()], 'consumed', subject=1)
+    expect('readOptionalSigns', 'sign after a space', [minus(), space(), minus()], 'consumed', subject=2)
     expect('readOptionalSigns', 'expanded element', [elem()], 'pushed')
     expect('readSequence', 'character of the set', [digit_in()], 'consumed', env={'chars': A.Sym('chars'), 'optspace': True})
     expect('readSequence', 'character outside the set', [digit_in(), other()], 'pushed', env={'chars': A.Sym('chars'), 'optspace': True})
@@ -589,3 +592,46 @@ def r56(chk, m, rule_id='R5.6'):
                 chk.verdict(R, '%s :: %s' % (fname, M.norm(site)), cnt == 1,
                             '%s returns %s in which the sign read by readOptionalSigns is applied %d time(s) (must be exactly once)'
                             % (fname, M.norm(site), cnt), chk.where(fn, site), 'sign applied once')
+
+
+# ---------------------------------------------------------------------------
+def r57(chk, m):
+    R = chk.rule('R5.7', 'category codes changed for an argument type (url: # ~ % & become ordinary) are restored on every '
+                 'normal exit of readArgumentAndSource, including the one for an absent optional argument', 2)
+    from .. import flow
+    fn = m.func('plasTeX.TeX', 'TeX.readArgumentAndSource')
+    chk.analysed(fn)
+    saved = set()
+    for n in M.walk_no_nested(fn.node):
+        if isinstance(n, ast.Assign) and isinstance(n.targets[0], ast.Subscript) and isinstance(n.targets[0].value, ast.Name) \
+           and 'whichCode' in text(n.value):
+            saved.add(n.targets[0].value.id)
+    need(len(saved) == 1, 'readArgumentAndSource: the table of saved category codes was not found')
+    sv = saved.pop()
+    restoring = set()
+    for n in M.walk_no_nested(fn.node):
+        if isinstance(n, ast.For) and re.search(r'\b%s\b' % sv, text(n.iter)):
+            for c in ast.walk(n):
+                if isinstance(c, ast.Call) and M.call_name(c).endswith('context.catcode'):
+                    restoring.add(id(c))
+    need(restoring, 'readArgumentAndSource: no loop restores the saved category codes')
+    rets = {}
+
+    def transfer(n, v):
+        if isinstance(n, ast.Call) and M.call_name(n).endswith('context.catcode') and id(n) not in restoring:
+            return 'dirty'
+        if isinstance(n, ast.Call) and isinstance(n.func, ast.Attribute) and n.func.attr in ('items', 'keys') \
+           and text(n.func.value) == sv and v == 'dirty':
+            return 'restored'
+        if isinstance(n, ast.Return):
+            rets.setdefault(n.lineno, set()).add(v)
+        return v
+    normal, raised = flow.function_exits(fn.node, 'clean', transfer)
+    bad = sorted(l for l, vs in rets.items() if 'dirty' in vs)
+    for l in sorted(rets):
+        if 'dirty' in rets[l] or 'restored' in rets[l]:
+            chk.verdict(R, 'readArgumentAndSource :: %s' % exit_key(fn, l), 'dirty' not in rets[l],
+                        'this exit can be reached with the category codes of the argument type still in force (the restore loop is not '
+                        'on its path): the rest of the document is read with # ~ %% & as ordinary characters', chk.where(fn, type('L', (), {'lineno': l})()))
+    chk.verdict(R, 'readArgumentAndSource :: falls off with codes restored', 'dirty' not in normal,
+                'a normal exit leaves argument-type category codes in force', chk.where(fn))
